@@ -1,4 +1,4 @@
-import vf, trees
+import vf, trees, prog_kinds
 
 def build(tier):
     quick = tier == "quick"
@@ -9,8 +9,18 @@ def build(tier):
         for rec in (False, True):
             if sk == "S1" and rec:
                 continue
-            obs.append(trees.tree_ob("C17.a", sk, "rel", dict(base, recursive=rec, auto_ex=False), timeout=400 if quick else 2400))
+            obs.append(trees.tree_ob("C17.a", sk, "rel", dict(base, recursive=rec, auto_ex=False, has_prefix=False), fixexcl=(sk != "S1"),
+                                     timeout=400 if quick else 2400))
+    obs.append(trees.tree_ob("C17.a", "S1", "rel", dict(base, recursive=False, auto_ex=True), fixexcl=True, timeout=400 if quick else 2400, note=" (prefix)"))
     # C17.c / C12 lone file: title and module name do not depend on the absolute location (base name only)
     obs.append(trees.tree_ob("C17.c", "S3", "file", dict(ext_t=False, ext_m=False, excl_root=False, recursive=False, auto_ex=False, out_i=0),
                              fixrev=True, timeout=400 if quick else 2400, note=" (lone input file)"))
+    ks = list(range(len(prog_kinds.KINDS)))
+    for k1 in (ks[::3] if quick else ks):
+        obs.append(vf.CH(f"C17.b frame lemma, first command {prog_kinds.KINDS[k1]}: processing leaves global state and the passed Settings untouched; reprocessing gives the same page",
+                         "c17_frame.py", dict(KINDS=tuple(prog_kinds.KINDS), K1=k1), timeout=400 if quick else 2400,
+                         encodes=["cminx.documenter.Documenter.__init__/process_docs", "cminx.aggregator.DocumentationAggregator (all processors)",
+                                  "cminx.documentation_types.*.process", "cminx.rstwriter.RSTWriter.__init__ (heading_level_chars)"],
+                         symbolic="kind of the second command (12), both documented flags, custom header characters, title",
+                         bound="two command units per file; three pages rendered per path"))
     return dict(obligations=obs, explanation="x", assumptions=[])
